@@ -1100,6 +1100,9 @@ func runTwoChain(p *tcProfile) func(r *core.Run) *core.Violation {
 			return v
 		}
 		n := p.Steps[0] + r.Intn(p.Steps[1]-p.Steps[0]+1)
+		if r.Tier == "thorough" && r.Chance(1, 4) {
+			n *= 3
+		}
 		for i := 0; i < n; i++ {
 			if v := tc.step(); v != nil {
 				return v
